@@ -28,12 +28,12 @@ RULE = (
 ASSUMPTIONS = [
     "model interpreter in lib/programs.py (pure Python) is the reference",
     "interleaving of logs vs batches is not compared (two ordered sequences), provenance metadata keys vgi_rpc.* stripped",
-    "subprocess transport and externalization are exercised in the thorough tier only (see C30 for externalization)",
+    "externalization is covered by C30; the subprocess family spawns a real worker process per program",
 ]
 SHARDS = {"quick": 4, "thorough": 16}
 TECHNIQUE = "property-based differential testing (Hypothesis): generated service programs × transport matrix vs a pure-Python model interpreter and pairwise across transports"
 LEVEL_TEXT = "Generated-program exploration with a reference model: every observation (values, headers, batch sequence, log sequence, error type/message) must equal the model and agree across all transport configurations; bounded program size, no exhaustiveness claim."
-LEVEL_NOTE = "Trusts the model interpreter and pyarrow; in-process transports only in quick tier (HTTP via Falcon test client, no sockets)."
+LEVEL_NOTE = "Trusts the model interpreter and pyarrow; HTTP via Falcon test client (no network); subprocess family spawns real worker processes."
 
 _run_counter = itertools.count()
 
@@ -81,6 +81,8 @@ def run_spec(spec: dict[str, Any], cfgs: list[dict[str, Any]], out: Outcome) -> 
         models = [programs.model_call(spec, c) for c in spec["calls"]]
         all_obs: dict[str, list[dict[str, Any]]] = {}
         for cfg in cfgs:
+            if cfg["t"] == "subprocess":
+                cfg = {**cfg, "spec": spec, "run_id": run_id}
             name = cfg_name(cfg)
             with transports.open_transport(cfg, protocol, impl) as conn:
                 obs_list = []
@@ -125,7 +127,8 @@ def run_case(case: dict[str, Any]) -> Outcome:
     kinds = sorted({m["kind"] for m in spec["methods"]})
     out.label(*[f"kind={k}" for k in kinds])
     http = [HTTP_CFGS[i % len(HTTP_CFGS)] for i in case["http_idx"]]
-    run_spec(spec, SOCKET_CFGS + http, out)
+    extra = [{"t": "subprocess"}] if case.get("subprocess") else []
+    run_spec(spec, SOCKET_CFGS + extra + http, out)
     return out
 
 
@@ -141,3 +144,8 @@ def main(chk: Check) -> None:
         }
     )
     chk.explore("programs", strat, run_case, quick=160, thorough=1600)
+    # a real worker process (python startup ≈ 0.5 s per program): a few in quick, more in thorough
+    sub = st.fixed_dictionaries(
+        {"spec": programs.program_specs(), "http_idx": st.just([0]), "subprocess": st.just(True)}
+    )
+    chk.explore("subprocess", sub, run_case, quick=12, thorough=320)
